@@ -1,3 +1,4 @@
 -- Root of the `PasskeyVerif` library: every property module.
 import PasskeyVerif.Props.C16
 import PasskeyVerif.Props.C10
+import PasskeyVerif.Props.C01
